@@ -20,7 +20,7 @@ RULE = (
 )
 ASSUMPTIONS = ["RVD values are quotients of voxel counts below 10^6, recovered exactly with Fraction.limit_denominator"]
 MINIMUM = {"C11.judged": 3000, "C11.rvd_values_judged": 1000}
-BUDGET_S = {"quick": 600, "thorough": 900}
+BUDGET_S = {"quick": 1200, "thorough": 900}
 
 TINY = {"t1d4": ((4,), 3, 3), "t2x2": ((2, 2), 3, 3)}
 
